@@ -279,10 +279,13 @@ def run(prog, R):
         R.ob("C02.2-count-identities", "Builder::do_token slices and advances by the same n_tokens", ok, dt.at, det)
     bt = R.anchor(prog, "oq3_parser::shortcuts::Builder::token")
     if bt:
-        ps = [p for p in SymExec(prog, bt).paths() if "__diverged__" not in p.env]
+        # private helpers of Builder (other than the two primitives) are looked into, so that a shared prologue
+        # extracted into a helper leaves the verdict unchanged
+        PRIM_ = ("Builder::eat_trivias", "Builder::do_token", "Builder::do_float_split", "Builder::eat_n_trivias")
+        ps = [p for p in SymExec(prog, bt, inline=lambda c: c.startswith("oq3_parser::shortcuts::Builder::") and not c.endswith(PRIM_), max_paths=2000).paths() if "__diverged__" not in p.env]
         ok = bool(ps)
         for p in ps:
-            names = [c[0].split("::")[-1] for c in p.calls if c[0].startswith("oq3_parser::shortcuts::Builder::")]
+            names = [c[0].split("::")[-1] for c in p.calls if c[0].startswith("oq3_parser::shortcuts::Builder::") and c[0].endswith(PRIM_)]
             d = [c for c in p.calls if c[0].endswith("Builder::do_token")]
             ok = ok and names[-2:] == ["eat_trivias", "do_token"] and d[0][1][1] == ("arg", 2, "kind") and d[0][1][2] == ("cast", "usize", ("arg", 3, "n_tokens"))
         R.ob("C02.3-trivia", "Builder::token: eat_trivias then do_token(kind, n_tokens)", ok, bt.at, "")
